@@ -105,7 +105,7 @@ func mutate(t *rapid.T, g *vgen, v reflect.Value, depth int) {
 			}
 		}
 	case reflect.Map:
-		switch rapid.IntRange(0, 6).Draw(t, "mmap") {
+		switch rapid.IntRange(0, 7).Draw(t, "mmap") {
 		case 0:
 			v.Set(reflect.Zero(v.Type()))
 		case 1:
@@ -129,6 +129,22 @@ func mutate(t *rapid.T, g *vgen, v reflect.Value, depth int) {
 			v.SetMapIndex(reflect.ValueOf(k).Convert(v.Type().Key()), g.value(v.Type().Elem(), depth+1))
 		case 4:
 			v.Set(g.value(v.Type(), depth))
+		case 5: // rename a key: same size, another key set
+			keys := v.MapKeys()
+			if len(keys) > 0 {
+				min := keys[0]
+				for _, k := range keys {
+					if k.String() < min.String() {
+						min = k
+					}
+				}
+				val := v.MapIndex(min)
+				nk := reflect.ValueOf(min.String() + rapid.StringMatching(`[a-z]{1,2}`).Draw(t, "mrename")).Convert(v.Type().Key())
+				if !v.MapIndex(nk).IsValid() {
+					v.SetMapIndex(nk, val)
+					v.SetMapIndex(min, reflect.Value{})
+				}
+			}
 		default:
 		}
 	case reflect.Struct:
